@@ -62,6 +62,10 @@ func newSolver(tier string) *Solver {
 	if tier == "thorough" {
 		s.quickS, s.slowS = 10, 120
 	}
+	// development override (used by the canary runner, which only needs to see a failure)
+	if v := os.Getenv("FVC_LIMITS"); v != "" {
+		fmt.Sscanf(v, "%d,%d", &s.quickS, &s.slowS)
+	}
 	return s
 }
 
@@ -254,6 +258,13 @@ func cmdAll(args []string) int {
 				rc = 1
 				fmt.Printf("  %-60s %s %v\n      %s\n      %s\n", ob.Name, statusLine(ob), ob.Tags, ob.Clause, ob.Result.File)
 			}
+		}
+	}
+	if os.Getenv("FVC_SLOWEST") != "" {
+		sorted := append([]*Obligation(nil), all...)
+		sort.Slice(sorted, func(i, j int) bool { return sorted[i].Result.Seconds > sorted[j].Result.Seconds })
+		for i := 0; i < 20 && i < len(sorted); i++ {
+			fmt.Printf("slow %6.2fs %-9s %s [%s]\n", sorted[i].Result.Seconds, sorted[i].Result.Backend, sorted[i].Name, sorted[i].Path)
 		}
 	}
 	fmt.Printf("functions=%d obligations=%d discharged=%d gen=%.1fs total=%.1fs\n", len(fcs), len(all), nOK, gen.Seconds(), time.Since(t0).Seconds())
